@@ -4,6 +4,7 @@ import multiprocessing as mp
 import os
 import subprocess
 import tempfile
+import threading
 import time
 import z3
 from . import values as V
@@ -17,16 +18,28 @@ def global_axioms():
     return V.name_distinctness() + V.opaque_distinctness()
 
 
-def _run_z3(smt2, timeout_ms, want_model):
+def _run_z3(smt2, timeout_ms, want_model, noext=False):
+    """noext: array extensionality switched off.  That is a weaker theory (fewer axioms), so `unsat` is still a proof;
+    any other answer of that configuration is discarded by the caller."""
     t0 = time.time()
     ctx = z3.Context()
     s = z3.Solver(ctx=ctx)
     s.set("timeout", timeout_ms)
+    if noext:
+        s.set("array.extensional", False)
+    # z3's own timeout is not honoured in every phase (observed: 995 s on a 15 s budget): a watchdog interrupts the context
+    watchdog = threading.Timer(timeout_ms / 1000.0 + 3.0, ctx.interrupt)
+    watchdog.daemon = True
+    watchdog.start()
     try:
         s.from_string(smt2)
         r = s.check()
     except z3.Z3Exception as exc:
+        if "interrupt" in str(exc).lower() or "cancel" in str(exc).lower():
+            return "unknown", "z3: interrupted by the watchdog", time.time() - t0, None
         return "error", f"z3: {exc}", time.time() - t0, None
+    finally:
+        watchdog.cancel()
     verdict = str(r)
     model = None
     reason = ""
@@ -69,6 +82,12 @@ def _work(item):
     oid, smt2, expect, use_cvc5, z3_timeout = item
     verdict, reason, t, model = _run_z3(smt2, z3_timeout, want_model=True)
     backend = "z3"
+    if verdict == "unknown" and expect == "unsat":
+        # same query, array extensionality off: a weaker theory, so only `unsat` is accepted from it
+        v1, r1, t1, _ = _run_z3(smt2, z3_timeout, want_model=False, noext=True)
+        t += t1
+        if v1 == "unsat":
+            verdict, reason, backend = "unsat", "", "z3-noext"
     if verdict in ("unknown", "error") and use_cvc5:
         v2, r2, t2 = _run_cvc5(smt2, CVC5_TIMEOUT_MS)
         t += t2
